@@ -22,7 +22,7 @@ LEVEL = {
  "C16": ("exploration", "5 C16", "mutated / truncated / extended valid packets, every first byte, random streams, invalid UTF-8, reserved types and codes in every state with requests pending"),
  "C17": ("exploration", "5 C17", "every identifier on the wire and on Deferreds checked against all unfinished requests of the factory; identifier counter placed shortly before the wrap or right before identifiers in use (also ones only held back in a queue, on either address) while requests are unfinished; a 65536-message queue and, in the thorough tier, a full 65535-allocation cycle"),
  "C18": ("exploration", "5 C18", "the complete byte stream of every connection strictly parsed; API calls and timer expiries placed in the interval between disconnect()/abort and the asynchronous loss report"),
- "C19": ("exploration", "5 C19", "differential simulation: histories on two addresses run alone and interleaved on one factory; per-address observation logs must be equal up to renaming of identifiers; in half of the joint runs the shared counter is moved onto an identifier in use at a seeded address and the identifier rules judge the run"),
+ "C19": ("exploration", "5 C19", "differential simulation: histories on two addresses run alone and interleaved on one factory; per-address observation logs must be equal up to renaming of identifiers; in half of the joint runs the shared counter is moved onto an identifier in use at a seeded address and the identifier rules judge the run; in a third kind of joint run a callback of one address acts on the other, which must behave as if the call had been made at top level"),
  "C20": ("exploration", "5 C20", "boundary / out-of-range / ill-typed arguments injected at random points of fault-laden histories; atomicity checked per dispatch and metamorphically (schedule with the rejected calls deleted gives the same observation log)"),
 }
 TECH = {
